@@ -3175,14 +3175,13 @@ def resolve_immediates(items, constants, labels):
 
         # resolve the immediate field
         env = ChainMap(constants, labels)
-        imm = item.imm.eval(position, env, item.line)
 
-        # account for AUIPC "PC based on previous inst" nuance
+        # account for AUIPC "PC based on previous inst" nuance: the offset of an AUIPC-based jump is
+        # relative to the AUIPC itself (4 bytes back), and %hi / %lo only pair up on the same value
         if hasattr(item, 'is_auipc_jump') and item.is_auipc_jump:
-            if isinstance(item, CompressedInstruction):
-                imm += 2
-            else:
-                imm += 4
+            imm = item.imm.eval(position - 4, env, item.line)
+        else:
+            imm = item.imm.eval(position, env, item.line)
 
         d['imm'] = imm
 
